@@ -63,29 +63,39 @@ Qed.
 (* the code as it is                                                          *)
 
 (* Which variant /repo is.  This is the one statement that has to be edited (with
-   the conf text) when a flag of Corr/C08.v is flipped: F09 and F29 are repaired
-   in /repo; the relay (F28, wire format) and TLS session resumption (C08-N1,
-   proposed) are not. *)
-Example current_code_variant : code_fx = mkfixes true false true false.
+   the conf text) when a flag of Corr/C08.v is flipped: F09, F29 and C08-N1 (no
+   TLS session resumption) are repaired in /repo; the relay (F28, wire format)
+   is the only open item. *)
+Example current_code_variant : code_fx = mkfixes true false true true.
 Proof. reflexivity. Qed.
 
+(* no connection of the code's variant is a resumed session, whatever is offered *)
+Theorem current_code_resumption_closed lv r s t h id msgs :
+  link_r code_fx lv r s t h id msgs = (link code_fx lv r s h id msgs, false).
+Proof. apply no_resumption_when_repaired. reflexivity. Qed.
+
 (* What the code's variant guarantees, for every peer bound by unforgeability,
-   every ticket stemming from an earlier accepted handshake, every chain,
-   identity message, role, suite: no crash; an accepted link names a key that
-   the peer holds -- or whose holder's proof it RELAYS --, proved freshly and
-   within validity -- unless the link is a RESUMED session --, equal to the
-   dialled key, equal to the key of every dispatched message and to the
-   declared one; nothing is dispatched on a refused link. *)
+   whatever ticket it offers, every chain, identity message, role, suite: no
+   crash; an accepted link names a key that the peer holds -- or whose holder's
+   proof it RELAYS (F28, the one exception) --, proved over this handshake's
+   nonce and within validity, equal to the dialled key, equal to the key of
+   every dispatched message and to the declared one; nothing is dispatched on a
+   refused link.  ([guarantee] with resumed = false: its freshness conjunct is
+   unconditional and the relayed proof is one for the CURRENT nonce.) *)
 Theorem current_code_guarantee holds own_tls htls r s t h id msgs :
   (forall k, ~ In k holds -> own_tls (htls k) = false) ->
   presentable code_fx holds own_tls htls h ->
-  ticket_ok holds s t ->
-  guarantee holds r s id (snd (link_r code_fx LTls r s t h id msgs))
-            (effective (snd (link_r code_fx LTls r s t h id msgs)) t h)
-            (fst (link_r code_fx LTls r s t h id msgs)).
-Proof. apply partly_repaired_guarantee; reflexivity. Qed.
+  link_r code_fx LTls r s t h id msgs = (link code_fx LTls r s h id msgs, false) /\
+  guarantee holds r s id false h (link code_fx LTls r s h id msgs).
+Proof.
+  intros Hh Hp. split; [apply current_code_resumption_closed|].
+  assert (Ht : ticket_ok holds s None) by (intros c0 b H; discriminate).
+  pose proof (partly_repaired_guarantee code_fx holds own_tls htls r s None h id msgs
+                eq_refl eq_refl Hh Hp Ht) as G.
+  rewrite (current_code_resumption_closed LTls r s None h id msgs) in G. exact G.
+Qed.
 
-(* both exceptions are real for the code's variant as long as their flags are off *)
+(* the exception is real for the code's variant as long as its flag is off *)
 Theorem current_code_relay_open holds own_tls htls s now n k tk :
   fix_bind code_fx = false -> ~ In k holds -> own_tls tk = true ->
   let c := mkcert (pub_to_cn k) [URI true true (pub_to_cn k)] (Some (SigBy k n (pub_to_cn k) None))
@@ -95,13 +105,13 @@ Theorem current_code_relay_open holds own_tls htls s now n k tk :
   tls_handshake code_fx s now n None (Hello [RawOne c] tk) = Accept.
 Proof. intros Hb. now apply relay_presentable. Qed.
 
-Theorem current_code_resumption_open s c0 h id msgs :
-  fix_resume code_fx = false ->
-  link_r code_fx LTls RAccept s (Some (c0, true)) h id msgs = (accepted_conn code_fx s c0 id msgs, true).
-Proof. intros Hf. unfold link_r, resumes. rewrite Hf. reflexivity. Qed.
-
-(* and closed by their repairs, whatever the other flags *)
-Theorem current_code_resumption_closed lv r s t h id msgs :
-  fix_resume code_fx = true ->
-  link_r code_fx lv r s t h id msgs = (link code_fx lv r s h id msgs, false).
-Proof. apply no_resumption_when_repaired. Qed.
+(* against peers that do not relay, the code's variant satisfies the property
+   itself, tickets or not *)
+Theorem current_code_satisfies_property_without_relay holds r s t h id msgs :
+  signs_only_with_own_keys holds h ->
+  let '(o, resumed) := link_r code_fx LTls r s t h id msgs in
+  link_property LTls r s holds (effective resumed t h) id (out_hs o) (out_disp o) (out_stamp o) (out_crash o).
+Proof.
+  intros Hown. rewrite current_code_resumption_closed. simpl effective.
+  exact (f09_repaired_link_satisfies_property_without_relay holds r s h id msgs Hown).
+Qed.
